@@ -183,14 +183,14 @@ Proof.
 Qed.
 
 (* ------------------------------------------------------------------ well-formed histories *)
-(* the oracles are allowed choices: the calls of a reload are the computed adds in some
-   order followed by the computed removes in some order; a joining listener is replayed
+(* the oracles are allowed choices: the calls of a reload are the computed adds and the
+   computed removes in ANY order and interleaving; a joining listener is replayed
    the current values in some order *)
 Definition wf_ev (s : sys) (e : ev) : Prop :=
   match e with
-  | EReload snap adds rems =>
-    Permutation adds (calc_add (rvals s) (snap_map snap)) /\
-    Permutation rems (calc_rem (rvals s) (snap_map snap))
+  | EReload snap calls =>
+    Permutation calls (ladds (calc_add (rvals s) (snap_map snap)) ++
+                       ldels (calc_rem (rvals s) (snap_map snap)))
   | EJoin _ order => Permutation order (rvals s)
   | _ => True
   end.
